@@ -4,6 +4,7 @@ import QipVerif.Lemmas.SimDm
 import QipVerif.Lemmas.SimIdeal
 import QipVerif.Lemmas.SimIdealEmbed
 import QipVerif.Model.SimEdit
+import QipVerif.Model.SimDefault
 /-!
 # C02 — measurement branches obey the Born rule and drive classical control
 
@@ -48,6 +49,55 @@ theorem cond_iff (cs : List Nat) (v : Nat) (bits : List Int)
 
 -- non-vacuity: controls [2,0] (bit 2 most significant), value 2 = binary 10, bits c2=1 c0=0: acts; c2=0 c0=1: does not
 example : checkCCV [2, 0] 2 (some [0, 1, 1]) = .ok true ∧ checkCCV [2, 0] 2 (some [1, 1, 0]) = .ok false := by decide
+
+theorem valMSB_replicate_one (k : Nat) : valMSB (List.replicate k 1) = 2 ^ k - 1 := by
+  induction k with
+  | zero => rfl
+  | succ n ih =>
+    rw [List.replicate_succ, valMSB_cons, ih, List.length_replicate]
+    have : 1 ≤ 2 ^ n := Nat.one_le_two_pow
+    rw [Nat.pow_succ]; omega
+
+/-- **cond_default_iff.** A gate with `k` classical controls (any `k`, any order) whose `classical_control_value` was
+left at its default acts iff EVERY listed bit is 1: the default `2^k − 1` is the all-ones pattern for every `k` (not
+only `k ≤ 2`). -/
+theorem cond_default_iff (cs : List Nat) (bits : List Int)
+    (hr : ∀ c ∈ cs, c < bits.length) (hb : ∀ c ∈ cs, bits.getD c 0 = 0 ∨ bits.getD c 0 = 1) :
+    checkCCV (cs.map Int.ofNat) (defaultCcv cs.length) (some bits)
+      = .ok (decide (∀ c ∈ cs, bits.getD c 0 = 1)) := by
+  have h1 : 1 ≤ 2 ^ cs.length := Nat.one_le_two_pow
+  have hd : defaultCcv cs.length = ((2 ^ cs.length - 1 : Nat) : Int) := by
+    unfold defaultCcv; rw [Nat.cast_sub h1]; simp
+  rw [hd, cond_iff cs (2 ^ cs.length - 1) bits (by omega) hr hb]
+  congr 1
+  apply decide_eq_decide.mpr
+  constructor
+  · intro hv c hc
+    have hlen : (cs.map fun c => (bits.getD c 0).toNat).length = (List.replicate cs.length 1).length := by simp
+    have hle : ∀ d ∈ (cs.map fun c => (bits.getD c 0).toNat), d ≤ 1 := by
+      intro d hd'
+      obtain ⟨x, hx, rfl⟩ := List.mem_map.mp hd'
+      rcases hb x hx with h | h <;> rw [h] <;> decide
+    have heq := valMSB_inj _ _ hlen hle (fun d hd' => by rw [List.eq_of_mem_replicate hd'])
+      (by rw [hv, valMSB_replicate_one])
+    have hm : (bits.getD c 0).toNat ∈ (cs.map fun c => (bits.getD c 0).toNat) := List.mem_map.mpr ⟨c, hc, rfl⟩
+    rw [heq] at hm
+    have := List.eq_of_mem_replicate hm
+    rcases hb c hc with h | h
+    · rw [h] at this; cases this
+    · exact h
+  · intro hall
+    have : (cs.map fun c => (bits.getD c 0).toNat) = List.replicate cs.length 1 := by
+      apply List.eq_replicate_iff.mpr
+      refine ⟨by simp, ?_⟩
+      intro d hd'
+      obtain ⟨x, hx, rfl⟩ := List.mem_map.mp hd'
+      rw [hall x hx]; rfl
+    rw [this, valMSB_replicate_one]
+
+-- non-vacuity: three controls with the default value: acts on 111 only (not on 101 = 2·3 − 1)
+example : defaultCcv 3 = 7 ∧ checkCCV [0, 1, 2] (defaultCcv 3) (some [1, 1, 1]) = .ok true ∧
+    checkCCV [0, 1, 2] (defaultCcv 3) (some [1, 0, 1]) = .ok false := by decide
 
 /-- the value of a digit list is `Σ dᵢ·2^(k-1-i)` -/
 theorem valMSB_eq (b : Nat) (bs : List Nat) : valMSB (b :: bs) = b * 2 ^ bs.length + valMSB bs := valMSB_cons b bs
